@@ -8,16 +8,16 @@ Import ListNotations.
 Local Open Scope R_scope.
 
 Section SIS.
-Variable St : Type.
+Variables St Aux : Type.
 Variables (N dl dc : nat).
 Hypothesis Npos : (0 < N)%nat.
 
-Notation sset := (@sset ROps St).
-Notation event := (@event ROps St).
-Notation sis_state := (@sis_state ROps St).
+Notation sset := (@sset ROps St Aux).
+Notation event := (@event ROps St Aux).
+Notation sis_state := (@sis_state ROps St Aux).
 
 Definition wf_set (s : sset) : Prop :=
-  length (s_states s) = N /\ length (s_lw s) = N /\ s_lin s = dl /\ s_circ s = dc.
+  length (s_parts s) = N /\ length (s_lw s) = N /\ s_lin s = dl /\ s_circ s = dc.
 Definition normalised (s : sset) : Prop := lse ROps (s_lw s) = 0.
 Definition good (s : sset) : Prop := wf_set s /\ normalised s.
 
@@ -51,7 +51,7 @@ Lemma good_predict ev (prev pr : sset) : good prev -> wf_set pr -> good (predict
 Proof.
   intros [[P1 [P2 [P3 P4]]] Pn] [Q1 [Q2 [Q3 Q4]]]. unfold predict. destruct (ev_skip_pred ev).
   - repeat split; auto.
-  - repeat split; simpl; auto. rewrite mapi_from_length; auto.
+  - repeat split; simpl; auto. rewrite combine_length, mapi_from_length, !map_length, P1, Q1. apply Nat.min_id.
 Qed.
 
 Lemma wf_correct ev (pr : sset) : wf_ev ev -> wf_set pr -> wf_set (correct ev pr).
@@ -65,7 +65,7 @@ Qed.
 Lemma good_normalise (c : sset) : wf_set c -> good (normalise c).
 Proof.
   intros [Q1 [Q2 [Q3 Q4]]]. split.
-  - unfold normalise. repeat split; cbn [s_states s_lw s_lin s_circ]; auto. rewrite lse_normalise_length; auto.
+  - unfold normalise. repeat split; cbn [s_parts s_lw s_lin s_circ]; auto. rewrite lse_normalise_length; auto.
   - unfold normalised, normalise. cbn [s_lw]. apply lse_normalised_zero. apply nonempty_of_length; auto.
 Qed.
 
@@ -87,23 +87,23 @@ Lemma resampled_lw (c : sset) u1 : wf_set c ->
   s_lw (resampled c u1) = repeat (- ln (INR N)) N.
 Proof.
   intros [Q1 [Q2 _]]. unfold resampled.
-  pose proof (uniform_weights_statement (s_states c) (s_lw c) u1) as H.
+  pose proof (uniform_weights_statement (s_parts c) (s_lw c) u1) as H.
   assert (E : length (s_lw c : list R) = N) by exact Q2. rewrite E in H.
-  destruct (resample (s_states c) (s_lw c) u1) as [[out w] par]. exact H.
+  destruct (resample (s_parts c) (s_lw c) u1) as [[out w] par]. exact H.
 Qed.
 
 Lemma good_resampled (c : sset) u1 : wf_set c -> good (resampled c u1).
 Proof.
   intro W. pose proof (resampled_lw c u1 W) as Hw. destruct W as [Q1 [Q2 [Q3 Q4]]].
   split.
-  - pose proof (resample_lengths ROps (s_states c) (s_lw c) u1 (nonempty_of_length _ Q1)) as L.
-    unfold resampled in *. destruct (resample (s_states c) (s_lw c) u1) as [[out w] par].
+  - pose proof (resample_lengths ROps (s_parts c) (s_lw c) u1 (nonempty_of_length _ Q1)) as L.
+    unfold resampled in *. destruct (resample (s_parts c) (s_lw c) u1) as [[out w] par].
     destruct L as [L1 [L2 L3]]. repeat split; simpl in *; auto; lia.
   - unfold normalised. rewrite Hw. apply lse_uniform; auto.
 Qed.
 
 Lemma resampled_layout (c : sset) u1 : s_lin (resampled c u1) = s_lin c /\ s_circ (resampled c u1) = s_circ c.
-Proof. unfold resampled. destruct (resample (s_states c) (s_lw c) u1) as [[out w] par]. split; reflexivity. Qed.
+Proof. unfold resampled. destruct (resample (s_parts c) (s_lw c) u1) as [[out w] par]. split; reflexivity. Qed.
 
 Lemma good_mid st ev : PreInv st -> wf_ev ev ->
   good (pred (sis_mid st ev)) /\ good (cor (sis_mid st ev)).
@@ -286,14 +286,14 @@ End SIS.
    built the resampled set as ParticleSet(num_particle_, state_size_), i.e. with
    every component linear.  Not part of any property theorem. *)
 Section Regress.
-Variable St : Type.
-Definition resampled_old (c : @sset ROps St) (u1 : R) : @sset ROps St :=
-  let '(out, w, par) := resample (s_states c) (s_lw c) u1 in
+Variables St Aux : Type.
+Definition resampled_old (c : @sset ROps St Aux) (u1 : R) : @sset ROps St Aux :=
+  let '(out, w, par) := resample (s_parts c) (s_lw c) u1 in
   mkSset (s_lin c + s_circ c) 0 out w.
 
-Lemma old_resampling_loses_layout (c : @sset ROps St) u1 :
+Lemma old_resampling_loses_layout (c : @sset ROps St Aux) u1 :
   s_circ c <> 0%nat -> s_circ (resampled_old c u1) <> s_circ c /\ s_lin (resampled_old c u1) <> s_lin c.
 Proof.
-  intro H. unfold resampled_old. destruct (resample (s_states c) (s_lw c) u1) as [[out w] par]. simpl. lia.
+  intro H. unfold resampled_old. destruct (resample (s_parts c) (s_lw c) u1) as [[out w] par]. simpl. lia.
 Qed.
 End Regress.
